@@ -17,6 +17,7 @@ let props : (string * (module Frame.PROP)) list = [
   ("C16", (module C16));
   ("C17", (module C17));
   ("C18", (module C18));
+  ("C19", (module C19));
   ("C20", (module C20));
 ]
 
